@@ -191,6 +191,75 @@ theorem ok_iff_no_revisit (fuel : Nat) (prev : List κ) (i : Instruction)
   rw [← error_iff_revisit E S cals fuel prev i hne]
   cases h : expandInnerWith E S cals fuel prev i <;> simp_all
 
+/-! ### … at the program level -/
+
+theorem expandLoop_recursive (src : Prog) (fuel : Nat) :
+    ∀ (is : List Instruction) (idx : Nat) (np : Prog) (sm : Option (List Entry)) (j : Instruction),
+      expandLoop E S src fuel is idx np sm = .recursiveCalibration j →
+      ∃ i ∈ is, expandInnerWith E S src.cals fuel [] i = .recursiveCalibration j := by
+  intro is
+  induction is with
+  | nil => intro idx np sm j h; simp [expandLoop] at h
+  | cons i rest ih =>
+    intro idx np sm j h
+    unfold expandLoop at h
+    split at h
+    · obtain ⟨k, hk, hr⟩ := ih _ _ _ _ h
+      exact ⟨k, List.mem_cons_of_mem _ hk, hr⟩
+    · obtain ⟨k, hk, hr⟩ := ih _ _ _ _ h
+      exact ⟨k, List.mem_cons_of_mem _ hk, hr⟩
+    · rename_i j' hi
+      cases h
+      exact ⟨i, List.mem_cons_self .., hi⟩
+    · cases h
+
+theorem expandLoop_ok_all (src : Prog) (fuel : Nat) :
+    ∀ (is : List Instruction) (idx : Nat) (np : Prog) (sm : Option (List Entry))
+      (r : Prog × Option (List Entry)),
+      expandLoop E S src fuel is idx np sm = .ok r →
+      ∀ i ∈ is, ∃ o, expandInnerWith E S src.cals fuel [] i = .ok o := by
+  intro is
+  induction is with
+  | nil => intro idx np sm r _ i hi; cases hi
+  | cons i rest ih =>
+    intro idx np sm r h k hk
+    unfold expandLoop at h
+    split at h
+    · rename_i out ho
+      rcases List.mem_cons.mp hk with rfl | hk
+      · exact ⟨_, ho⟩
+      · exact ih _ _ _ _ h k hk
+    · rename_i ho
+      rcases List.mem_cons.mp hk with rfl | hk
+      · exact ⟨_, ho⟩
+      · exact ih _ _ _ _ h k hk
+    · cases h
+    · cases h
+
+/-- **C18 (the error) for `Program::expand_calibrations`**: provided the fuel suffices, the program-level
+expansion reports the recursive-calibration error iff the expansion of some body instruction would expand an
+instruction again while it is already being expanded; and the instruction it reports is such an instruction. -/
+theorem program_error_iff_revisit (p : Prog) (fuel : Nat)
+    (hne : classOf (expandCalibrations E p fuel) ≠ .outOfFuel) :
+    (∃ j, expandCalibrations E p fuel = .recursiveCalibration j) ↔
+      ∃ i ∈ p.instructions, ∃ j, Revisit E codeSubst p.cals [] i j := by
+  unfold expandCalibrations expandCalibrationsWith at hne ⊢
+  simp only [Bool.false_eq_true, if_false] at hne ⊢
+  cases hl : expandLoop E codeSubst p fuel p.instructions 0 p.cloneWithoutBody none with
+  | ok r =>
+    simp only [reduceCtorEq, exists_false, false_iff]
+    rintro ⟨i, hi, j, hj⟩
+    obtain ⟨o, ho⟩ := expandLoop_ok_all E codeSubst p fuel _ _ _ _ r hl i hi
+    obtain ⟨j', hj'⟩ := revisit_recursive E codeSubst p.cals hj fuel (by rw [ho]; simp)
+    rw [ho] at hj'; cases hj'
+  | recursiveCalibration j =>
+    constructor
+    · intro _
+      obtain ⟨i, hi, hr⟩ := expandLoop_recursive E codeSubst p fuel _ _ _ _ j hl
+      exact ⟨i, hi, j, recursive_revisit E codeSubst p.cals fuel [] i j hr⟩
+    · intro _; exact ⟨j, rfl⟩
+  | outOfFuel => rw [hl] at hne; simp [classOf] at hne
+
 /-! ## The Bool search the driver evaluates -/
 
 theorem revisitB_sound :
